@@ -415,7 +415,9 @@ func (p *Parser) parseBuffer(buf []byte, last bool) (err error) {
 			off += i
 			if b == p.quoteDelim {
 				off++
-				p.addString(string(buf[start:off]), off)
+				if err = p.addString(string(buf[start:off]), off); err != nil {
+					return
+				}
 			} else {
 				p.tmp = p.tmp[:0]
 				p.tmp = append(p.tmp, buf[start:off+1]...)
@@ -543,7 +545,9 @@ func (p *Parser) parseBuffer(buf []byte, last bool) (err error) {
 			p.lastStrKey = p.lastKey
 		case strQuote:
 			if b == p.quoteDelim {
-				p.addString(string(p.tmp), off)
+				if err = p.addString(string(p.tmp), off); err != nil {
+					return
+				}
 			} else {
 				p.tmp = append(p.tmp, b)
 			}
@@ -814,41 +818,49 @@ func (p *Parser) addTokenWith(s string, off int) {
 	}
 }
 
-func (p *Parser) addString(s string, off int) {
+func (p *Parser) addString(s string, off int) error {
 	p.mode = valueMap
 	if 0 < len(p.starts) && p.starts[len(p.starts)-1] == -1 { // object
 		if p.plus {
+			p.plus = false
 			obj, _ := p.stack[len(p.stack)-1].(map[string]any)
-			prev := obj[string(p.lastStrKey)].(string)
+			prev, ok := obj[string(p.lastStrKey)].(string)
+			if !ok {
+				return p.newError(off, "expected a string before '+'")
+			}
 			obj[string(p.lastStrKey)] = prev + s
 			p.lastStrKey = emptyKey
-			p.plus = false
-			return
+			return nil
 		}
 		if k, ok := p.stack[len(p.stack)-1].(gen.Key); ok {
 			obj, _ := p.stack[len(p.stack)-2].(map[string]any)
 			obj[string(k)] = s
 			p.lastKey = k
 			p.stack = p.stack[0 : len(p.stack)-1]
-			return
+			return nil
 		}
 		p.stack = append(p.stack, gen.Key(s))
 		p.mode = colonMap
 
-		return
+		return nil
 	}
 	if p.plus {
-		if 0 < len(p.stack) {
-			prev := p.stack[len(p.stack)-1].(string)
-			p.stack[len(p.stack)-1] = prev + s
-		}
 		p.plus = false
-		return
+		if len(p.stack) == 0 {
+			return p.newError(off, "expected a string before '+'")
+		}
+		prev, ok := p.stack[len(p.stack)-1].(string)
+		if !ok {
+			return p.newError(off, "expected a string before '+'")
+		}
+		p.stack[len(p.stack)-1] = prev + s
+		return nil
 	}
 	// TBD if time option for @ and length is over a certain size try as time
 
 	// Array or just a value
 	p.stack = append(p.stack, s)
+	return nil
 }
 
 func (p *Parser) newError(off int, format string, args ...any) error {
